@@ -28,6 +28,12 @@ mod ex_allowlist;
 mod ex_blocklist;
 #[path = "/repo/examples/fungible-capped/src/contract.rs"]
 mod ex_capped;
+#[path = "/repo/examples/pausable/src/contract.rs"]
+mod ex_counter;
+#[path = "/repo/examples/upgradeable/v1/src/contract.rs"]
+mod ex_upg_v1;
+#[path = "/repo/examples/upgradeable/v2/src/contract.rs"]
+mod ex_upg_v2;
 
 // ---------------------------------------------------------------------------------------------
 // harness contracts wired to the library functions directly
@@ -87,10 +93,16 @@ mod paus_lib {
         pub fn pause(e: &Env) { pausable::pause(e) }
         pub fn unpause(e: &Env) { pausable::unpause(e) }
         #[when_not_paused]
-        pub fn guarded_np(e: &Env) {}
+        pub fn increment(e: &Env) -> i32 {
+            let mut counter: i32 = e.storage().instance().get(&0u32).unwrap_or(0);
+            counter += 1;
+            e.storage().instance().set(&0u32, &counter);
+            counter
+        }
         #[when_paused]
-        pub fn guarded_p(e: &Env) {}
+        pub fn emergency_reset(e: &Env) { e.storage().instance().set(&0u32, &0i32); }
         pub fn paused(e: &Env) -> bool { pausable::paused(e) }
+        pub fn counter(e: &Env) -> i32 { e.storage().instance().get(&0u32).unwrap_or(0) }
     }
 }
 mod cap_lib {
@@ -187,15 +199,15 @@ mod upg_lib {
 
 // ---------------------------------------------------------------------------------------------
 #[derive(Clone, Copy, PartialEq, Eq, Debug)]
-enum Kind { Paus, PausLib, AllowEx, AllowLib, BlockEx, BlockLib, CapEx, CapLib, UpgV1, UpgV2, UpgLib }
+enum Kind { Paus, PausEx, PausLib, AllowEx, AllowLib, BlockEx, BlockLib, CapEx, CapLib, UpgV1, UpgV2, UpgLib }
 impl Kind {
     fn coq(self) -> &'static str {
-        match self { Kind::Paus => "KPaus", Kind::PausLib => "KPausLib", Kind::AllowEx => "KAllowEx", Kind::AllowLib => "KAllowLib", Kind::BlockEx => "KBlockEx",
+        match self { Kind::Paus => "KPaus", Kind::PausEx => "KPausEx", Kind::PausLib => "KPausLib", Kind::AllowEx => "KAllowEx", Kind::AllowLib => "KAllowLib", Kind::BlockEx => "KBlockEx",
             Kind::BlockLib => "KBlockLib", Kind::CapEx => "KCapEx", Kind::CapLib => "KCapLib", Kind::UpgV1 => "KUpgV1",
             Kind::UpgV2 => "KUpgV2", Kind::UpgLib => "KUpgLib" }
     }
     fn tag(self) -> &'static str {
-        match self { Kind::Paus => "paus", Kind::PausLib => "pauslib", Kind::AllowEx => "allowex", Kind::AllowLib => "allowlib", Kind::BlockEx => "blockex",
+        match self { Kind::Paus => "paus", Kind::PausEx => "pausex", Kind::PausLib => "pauslib", Kind::AllowEx => "allowex", Kind::AllowLib => "allowlib", Kind::BlockEx => "blockex",
             Kind::BlockLib => "blocklib", Kind::CapEx => "capex", Kind::CapLib => "caplib", Kind::UpgV1 => "upgv1",
             Kind::UpgV2 => "upgv2", Kind::UpgLib => "upglib" }
     }
@@ -211,6 +223,7 @@ impl Kind {
 enum Op {
     Advance(u32),
     Transfer(usize, usize, i128),
+    TransferMux(usize, usize, u64, i128),
     TransferFrom(usize, usize, usize, i128),
     Approve(usize, usize, i128, u32),
     Burn(usize, i128),
@@ -240,6 +253,7 @@ impl Op {
         match self {
             Op::Advance(k) => format!("Advance {}", k),
             Op::Transfer(f, t, a) => format!("Transfer {} {} {}", an(*f), an(*t), z(*a)),
+            Op::TransferMux(f, t, i, a) => format!("TransferMux {} {} {} {}", an(*f), an(*t), i, z(*a)),
             Op::TransferFrom(s, f, t, a) => format!("TransferFrom {} {} {} {}", an(*s), an(*f), an(*t), z(*a)),
             Op::Approve(o, s, a, lu) => format!("Approve {} {} {} {}", an(*o), an(*s), z(*a), lu),
             Op::Burn(f, a) => format!("Burn {} {}", an(*f), z(*a)),
@@ -266,17 +280,17 @@ impl Op {
     }
     fn tag(&self) -> &'static str {
         match self {
-            Op::Advance(_) => "advance", Op::Transfer(..) => "transfer", Op::TransferFrom(..) => "transfer_from",
+            Op::Advance(_) => "advance", Op::Transfer(..) => "transfer", Op::TransferMux(..) => "transfer_mux", Op::TransferFrom(..) => "transfer_from",
             Op::Approve(..) => "approve", Op::Burn(..) => "burn", Op::BurnFrom(..) => "burn_from", Op::Mint(..) => "mint",
             Op::Pause(_) => "pause", Op::Unpause(_) => "unpause", Op::AllowUser(..) => "allow_user",
             Op::DisallowUser(..) => "disallow_user", Op::BlockUser(..) => "block_user", Op::UnblockUser(..) => "unblock_user",
             Op::SetCap(_) => "set_cap", Op::Upgrade(..) => "upgrade", Op::Migrate(..) => "migrate",
             Op::LibEnable => "lib_enable", Op::LibComplete => "lib_complete", Op::LibEnsure => "lib_ensure",
-            Op::WhenNotPaused => "guarded_np", Op::WhenPaused => "guarded_p",
+            Op::WhenNotPaused => "increment", Op::WhenPaused => "emergency_reset",
             Op::GrantManager(..) => "grant_role", Op::RevokeManager(..) => "revoke_role", Op::RenounceManager(..) => "renounce_role",
         }
     }
-    fn pausable(&self) -> bool { matches!(self, Op::Transfer(..) | Op::TransferFrom(..) | Op::Burn(..) | Op::BurnFrom(..) | Op::Mint(..) | Op::WhenNotPaused) }
+    fn pausable(&self) -> bool { matches!(self, Op::Transfer(..) | Op::TransferMux(..) | Op::TransferFrom(..) | Op::Burn(..) | Op::BurnFrom(..) | Op::Mint(..) | Op::WhenNotPaused) }
 }
 
 #[derive(Clone, PartialEq, Debug)]
@@ -292,7 +306,7 @@ impl Obs {
     }
 }
 
-struct Params { kind: Kind, na: usize, owner: usize, manager: usize, max_ttl: u32, init_supply: i128, cap: i128, now0: u32, min_temp: u32 }
+struct Params { kind: Kind, na: usize, owner: usize, manager: usize, max_ttl: u32, init_supply: i128, cap: i128, now0: u32, min_temp: u32, acct: Option<usize> }
 
 struct Sys {
     e: Env, p: Params, id: Address, a: Vec<Address>, hash: Option<BytesN<32>>,
@@ -300,6 +314,7 @@ struct Sys {
     unread: Vec<bool>,      // accounts whose list status is not read by the observations
     hist_list: Vec<bool>,   // harness-side replay of the successful list operations (labels only)
     poisoned: bool,         // harness-level re-registration after an upgrade failed
+    broken: std::cell::Cell<bool>,   // an as_contract read trapped: stop the trace after this observation
 }
 
 const V2_WASM: &str = "/repo/examples/upgradeable/testdata/upgradeable_v2_example.wasm";
@@ -312,10 +327,15 @@ impl Sys {
         e.ledger().with_mut(|l| {
             l.sequence_number = p.now0;
             l.min_temp_entry_ttl = p.min_temp;   // not a parameter of the model: behaviour must not depend on it
-            l.min_persistent_entry_ttl = 50_000;
+            l.min_persistent_entry_ttl = p.max_ttl;   // the contract instance (never extended by these contracts) lives as long as anything can
             l.max_entry_ttl = p.max_ttl;
         });
-        let a: Vec<Address> = (0..p.na).map(|_| Address::generate(&e)).collect();
+        // account addresses, so that a receiver can also be given in muxed form
+        // one address of the universe may be an ACCOUNT address: it can receive in muxed form (and hold
+        // tokens, be listed ...) but mock_auths cannot sign for it, so it never authorises anything
+        let a: Vec<Address> = (0..p.na).map(|i| if Some(i) == p.acct {
+            use soroban_sdk::testutils::MuxedAddress as _; soroban_sdk::MuxedAddress::generate(&e).address()
+        } else { Address::generate(&e) }).collect();
         let nm = SString::from_str(&e, "Tok");
         let sy = SString::from_str(&e, "TK");
         // a constructor that refuses arguments the model accepts must show up as a disagreement,
@@ -329,7 +349,8 @@ impl Sys {
             Kind::BlockLib => e.register(block_lib::BlockLib, ()),
             Kind::CapLib => e.register(cap_lib::CapLib, ()),
             Kind::PausLib => e.register(paus_lib::PausLib, ()),
-            Kind::UpgV1 => e.register(upg_v1::UpgV1, (&a[p.owner],)),
+            Kind::UpgV1 => e.register(ex_upg_v1::ExampleContract, (&a[p.owner],)),
+            Kind::PausEx => e.register(ex_counter::ExampleContract, (&a[p.owner],)),
             Kind::UpgV2 => e.register(upg_v2::UpgV2, (&a[p.owner],)),
             Kind::UpgLib => e.register(upg_lib::UpgLib, ()),
         }));
@@ -338,7 +359,7 @@ impl Sys {
             Err(_) => {
                 let dead = Address::generate(&e);
                 let na = p.na;
-                return Sys { e, p, id: dead, a, hash: None, steps: std::vec![], dead: true, unread: std::vec![false; na], hist_list: std::vec![false; na], poisoned: false,
+                return Sys { e, p, id: dead, a, hash: None, steps: std::vec![], dead: true, unread: std::vec![false; na], hist_list: std::vec![false; na], poisoned: false, broken: std::cell::Cell::new(false),
                     obs0: "(mkObs (-1) [] [] false [] None false None true [])".into(),
                     prev: Obs { supply: -1, bal: std::vec![], alw: std::vec![], paused: false, list: std::vec![], cap: None, mig: false, data: None, trap: true, mgr: std::vec![] } };
             }
@@ -350,7 +371,7 @@ impl Sys {
         let na = p.na;
         let mut hist_list = std::vec![false; na];
         if p.kind == Kind::AllowEx { hist_list[p.owner] = true; }
-        let mut s = Sys { e, p, id, a, hash, steps: std::vec![], obs0: String::new(), dead: false, unread: std::vec![false; na], hist_list, poisoned: false,
+        let mut s = Sys { e, p, id, a, hash, steps: std::vec![], obs0: String::new(), dead: false, unread: std::vec![false; na], hist_list, poisoned: false, broken: std::cell::Cell::new(false),
             prev: Obs { supply: 0, bal: std::vec![], alw: std::vec![], paused: false, list: std::vec![], cap: None, mig: false, data: None, trap: false, mgr: std::vec![] } };
         s.prev = s.observe();
         s.obs0 = s.prev.coq();
@@ -378,14 +399,19 @@ impl Sys {
         let e = &self.e;
         let k = self.p.kind;
         let mut trap = self.poisoned;
-        let token = !(k.is_upg() || k == Kind::PausLib);
+        let token = !(k.is_upg() || matches!(k, Kind::PausLib | Kind::PausEx));
         let (mut supply, mut bal, mut alw) = (0i128, std::vec![0i128; self.p.na], std::vec![std::vec![0i128; self.p.na]; self.p.na]);
         if token {
             supply = self.get::<i128>("total_supply", soroban_sdk::vec![e], &mut trap, 0);
             bal = self.a.iter().map(|x| self.get::<i128>("balance", soroban_sdk::vec![e, x.to_val()], &mut trap, 0)).collect();
             alw = self.a.iter().map(|ow| self.a.iter().map(|sp| self.get::<i128>("allowance", soroban_sdk::vec![e, ow.to_val(), sp.to_val()], &mut trap, 0)).collect()).collect();
         }
-        let paused = if matches!(k, Kind::Paus | Kind::PausLib) { self.get::<bool>("paused", soroban_sdk::vec![e], &mut trap, false) } else { false };
+        if k == Kind::PausLib { supply = self.get::<i32>("counter", soroban_sdk::vec![e], &mut trap, 0) as i128; }
+        if k == Kind::PausEx {
+            // the example has no getter for its counter: raw instance storage (no contract code runs)
+            supply = e.as_contract(&self.id, || e.storage().instance().get::<_, i32>(&ex_counter::DataKey::Counter).unwrap_or(-1)) as i128;
+        }
+        let paused = if matches!(k, Kind::Paus | Kind::PausLib | Kind::PausEx) { self.get::<bool>("paused", soroban_sdk::vec![e], &mut trap, false) } else { false };
         let list: Vec<Option<bool>> = (0..self.p.na).map(|i| {
             if !k.is_list() { Some(false) }
             else if self.unread[i] { None }
@@ -396,8 +422,19 @@ impl Sys {
             Kind::CapEx => e.as_contract(&self.id, || e.storage().instance().get::<_, i128>(&capped::CapStorageKey::Cap)),
             _ => None,
         };
-        let mig = if k.is_upg() { self.get::<bool>("migrating", soroban_sdk::vec![e], &mut trap, false) } else { false };
-        let data = if k == Kind::UpgV2 { self.get::<Option<u32>>("data", soroban_sdk::vec![e], &mut trap, None) } else { None };
+        let (mut mig, mut data) = (false, None);
+        if k == Kind::UpgV1 {
+            // examples/upgradeable/v1 and v2 have no getters: the library query + raw storage in the contract's
+            // context; should that trap, the environment is no longer usable: the trace ends with the trap
+            let r = std::panic::catch_unwind(std::panic::AssertUnwindSafe(|| e.as_contract(&self.id, || {
+                (stellar_contract_utils::upgradeable::can_complete_migration(e),
+                 e.storage().instance().get::<_, ex_upg_v2::Data>(&ex_upg_v2::DATA_KEY).map(|d| d.num1))
+            })));
+            match r { Ok((m, d)) => { mig = m; data = d; } Err(_) => { trap = true; self.broken.set(true); } }
+        } else if k.is_upg() {
+            mig = self.get::<bool>("migrating", soroban_sdk::vec![e], &mut trap, false);
+            if k == Kind::UpgV2 { data = self.get::<Option<u32>>("data", soroban_sdk::vec![e], &mut trap, None); }
+        }
         // holders of the "manager" role (allow/block-list examples: AccessControl::has_role); the other
         // contracts have no role table: the constructor argument `manager` is reported
         let mgr: Vec<bool> = (0..self.p.na).map(|i| {
@@ -415,6 +452,11 @@ impl Sys {
         match op {
             Op::Advance(_) => unreachable!(),
             Op::Transfer(f, t, am) => ("transfer", soroban_sdk::vec![e, a(f), a(t), am.into_val(e)]),
+            Op::TransferMux(f, t, id, am) => {
+                use soroban_sdk::testutils::MuxedAddress as _;
+                let m = soroban_sdk::MuxedAddress::new(self.a[*t].clone(), *id);
+                ("transfer", soroban_sdk::vec![e, a(f), m.to_val(), am.into_val(e)])
+            }
             Op::TransferFrom(s, f, t, am) => ("transfer_from", soroban_sdk::vec![e, a(s), a(f), a(t), am.into_val(e)]),
             Op::Approve(o, s, am, lu) => ("approve", soroban_sdk::vec![e, a(o), a(s), am.into_val(e), lu.into_val(e)]),
             Op::Burn(f, am) => ("burn", soroban_sdk::vec![e, a(f), am.into_val(e)]),
@@ -422,8 +464,8 @@ impl Sys {
             Op::Mint(t, am) => ("mint", soroban_sdk::vec![e, a(t), am.into_val(e)]),
             Op::Pause(c) => ("pause", if lib { soroban_sdk::vec![e] } else { soroban_sdk::vec![e, a(c)] }),
             Op::Unpause(c) => ("unpause", if lib { soroban_sdk::vec![e] } else { soroban_sdk::vec![e, a(c)] }),
-            Op::WhenNotPaused => ("guarded_np", soroban_sdk::vec![e]),
-            Op::WhenPaused => ("guarded_p", soroban_sdk::vec![e]),
+            Op::WhenNotPaused => ("increment", soroban_sdk::vec![e]),
+            Op::WhenPaused => ("emergency_reset", soroban_sdk::vec![e]),
             Op::GrantManager(x, c) => ("grant_role", soroban_sdk::vec![e, a(x), Symbol::new(e, "manager").to_val(), a(c)]),
             Op::RevokeManager(x, c) => ("revoke_role", soroban_sdk::vec![e, a(x), Symbol::new(e, "manager").to_val(), a(c)]),
             Op::RenounceManager(c) => ("renounce_role", soroban_sdk::vec![e, Symbol::new(e, "manager").to_val(), a(c)]),
@@ -436,7 +478,9 @@ impl Sys {
                 let h: BytesN<32> = if *w { self.hash.clone().unwrap_or(BytesN::from_array(e, &[7u8; 32])) } else { BytesN::from_array(e, &[9u8; 32]) };
                 ("upgrade", soroban_sdk::vec![e, h.to_val(), a(o)])
             }
-            Op::Migrate(d, o) => ("migrate", soroban_sdk::vec![e, upg_v2::Data { num1: *d }.into_val(e), a(o)]),
+            Op::Migrate(d, o) => ("migrate", if self.p.kind == Kind::UpgV1 {
+                    soroban_sdk::vec![e, ex_upg_v2::Data { num1: *d, num2: d.wrapping_add(1) }.into_val(e), a(o)]
+                } else { soroban_sdk::vec![e, upg_v2::Data { num1: *d }.into_val(e), a(o)] }),
             Op::LibEnable => ("lib_enable", soroban_sdk::vec![e]),
             Op::LibComplete => ("lib_complete", soroban_sdk::vec![e]),
             Op::LibEnsure => ("lib_ensure", soroban_sdk::vec![e]),
@@ -460,7 +504,8 @@ impl Sys {
                 // the address now runs the uploaded wasm; put the native (current source) code back,
                 // instance storage is kept (the constructor only rewrites OWNER with the same value)
                 let r = std::panic::catch_unwind(std::panic::AssertUnwindSafe(|| match self.p.kind {
-                    Kind::UpgV1 => { self.e.register_at(&self.id, upg_v1::UpgV1, (&self.a[self.p.owner],)); }
+                    // the successor of examples/upgradeable/v1 is examples/upgradeable/v2 (no constructor)
+                    Kind::UpgV1 => { self.e.register_at(&self.id, ex_upg_v2::ExampleContract, ()); }
                     Kind::UpgV2 => { self.e.register_at(&self.id, upg_v2::UpgV2, (&self.a[self.p.owner],)); }
                     _ => {}
                 }));
@@ -474,8 +519,9 @@ impl Sys {
     fn qualifier(&self, op: &Op, ok: bool) -> String {
         let k = self.p.kind;
         let p = &self.prev;
-        let base = if ok { "ok" } else { "fail" };
-        if k == Kind::PausLib {
+        let zero = matches!(op, Op::Transfer(_, _, 0) | Op::TransferMux(_, _, _, 0) | Op::TransferFrom(_, _, _, 0) | Op::Burn(_, 0) | Op::BurnFrom(_, _, 0) | Op::Mint(_, 0) | Op::Approve(_, _, 0, _));
+        let base: &str = match (ok, zero) { (true, false) => "ok", (false, false) => "fail", (true, true) => "ok0", (false, true) => "fail0" };
+        if matches!(k, Kind::PausLib | Kind::PausEx) {
             if let Op::WhenNotPaused | Op::WhenPaused | Op::Pause(_) | Op::Unpause(_) = op {
                 return if p.paused { format!("{}-paused", base) } else { format!("{}-unpaused", base) };
             }
@@ -486,7 +532,7 @@ impl Sys {
         if k.is_list() {
             let closed = |i: usize| if k.is_block() { self.hist_list[i] } else { !self.hist_list[i] };
             let (vet, sp): (Vec<usize>, Option<usize>) = match op {
-                Op::Transfer(f, t, _) => (std::vec![*f, *t], None),
+                Op::Transfer(f, t, _) | Op::TransferMux(f, t, _, _) => (std::vec![*f, *t], None),
                 Op::TransferFrom(s, f, t, _) => (std::vec![*f, *t], Some(*s)),
                 Op::Approve(o, _, _, _) => (std::vec![*o], None),
                 Op::Burn(f, _) => (std::vec![*f], None),
@@ -522,7 +568,11 @@ impl Sys {
     }
 
     fn step(&mut self, out: &mut Out, op: Op, auths: &[usize]) -> bool {
-        if self.dead { return false; }   // deployment failed: the trace consists of the (wrong) initial observation only
+        if self.dead { return false; }
+        let auths: Vec<usize> = auths.iter().copied().filter(|i| Some(*i) != self.p.acct).collect();
+        let auths = &auths[..];
+        // a muxed receiver must be an account address
+        let op = match op { Op::TransferMux(f, t, _, am) if Some(t) != self.p.acct => Op::Transfer(f, t, am), o => o };   // deployment failed: the trace consists of the (wrong) initial observation only
         let ok = self.exec(&op, auths);
         if ok {
             match &op {
@@ -537,10 +587,17 @@ impl Sys {
         out.case(&format!("{}.{}/{}", self.p.kind.tag(), op.tag(), self.qualifier(&op, ok)), &format!("{} {}", self.p.kind.tag(), call));
         self.steps.push(format!("({}, {}, {})", call, b(ok), o.coq()));
         self.prev = o;
+        if self.broken.get() { self.dead = true; }
         ok
     }
 
-    fn finish(self, out: &mut Out, desc: &str) {
+    fn finish(mut self, out: &mut Out, desc: &str) {
+        if self.dead && self.steps.is_empty() { out.label(&format!("{}.deploy/refused", self.p.kind.tag())); }
+        if !self.dead && self.unread.iter().any(|u| *u) {
+            // every list entry is read again before the trace ends
+            for u in self.unread.iter_mut() { *u = false; }
+            self.step(out, Op::Advance(0), &[]);
+        }
         let p = &self.p;
         let cfg = format!("(mkCfg {} {}%nat {} {} {} {} {} {})", p.kind.coq(), p.na, an(p.owner), an(p.manager), p.max_ttl, z(p.init_supply), z(p.cap), p.now0);
         let n = self.steps.len();
@@ -553,10 +610,10 @@ impl Sys {
 fn params(kind: Kind, rng: &mut Rng, na: usize) -> Params {
     let owner = rng.below(na as u64) as usize;
     let manager = rng.below(na as u64) as usize;   // may alias the admin
-    let max_ttl = *rng.pick(&[60_000u32, 100_000, 200_000, 3_000_000]);
+    let max_ttl = *rng.pick(&[60_000u32, 100_000, 600_000, 3_000_000]);
     let init_supply = match rng.below(6) { 0 => 0, 1 => 1, 2 => i128::MAX, 3 => i128::MAX - 5, _ => rng.range(10, 5000) as i128 };
     let cap = match rng.below(8) { 0 => 0, 1 => 1, 2 => i128::MAX, 3 => i128::MAX - 3, _ => rng.range(5, 3000) as i128 };
-    Params { kind, na, owner, manager, max_ttl, init_supply, cap, now0: rng.range(0, 300) as u32, min_temp: if rng.chance(2, 3) { 1 } else { 16 } }
+    Params { kind, na, owner, manager, max_ttl, init_supply, cap, now0: rng.range(0, 300) as u32, min_temp: if rng.chance(2, 3) { 1 } else { 16 }, acct: if na >= 4 && !kind.is_upg() { Some(na - 1) } else { None } }
 }
 
 fn amount(rng: &mut Rng, anchor: i128, supply: i128) -> i128 {
@@ -603,7 +660,7 @@ fn live_until(rng: &mut Rng, now: u32, max_ttl: u32) -> u32 {
 /// the signer an entry point asks for (None = nobody)
 fn needed_signer(k: Kind, op: &Op, owner: usize) -> Option<usize> {
     match op {
-        Op::Transfer(f, _, _) | Op::Burn(f, _) => Some(*f),
+        Op::Transfer(f, _, _) | Op::TransferMux(f, ..) | Op::Burn(f, _) => Some(*f),
         Op::TransferFrom(s, ..) | Op::BurnFrom(s, ..) => Some(*s),
         Op::Approve(o, ..) => Some(*o),
         Op::Mint(..) => if k == Kind::Paus { Some(owner) } else { None },
@@ -636,13 +693,13 @@ fn random_op(rng: &mut Rng, s: &Sys, budget_left: &mut u32) -> Op {
     };
     let boss = |rng: &mut Rng| -> usize { if rng.chance(5, 6) { s.p.owner } else { rng.below(na as u64) as usize } };
     let adv = |rng: &mut Rng, left: &mut u32| -> Op {
-        let n = match rng.below(9) { 0 => 0, 1 => 1, 2 => rng.range(2, 30) as u32, 3 => rng.range(100, 450) as u32, 4 => 20, 5 => 100, 6 => 20_000, 7 => 17_281, _ => rng.range(1, 5) as u32 };
+        let n = match rng.below(9) { 0 => 0, 1 => 1, 2 => rng.range(2, 30) as u32, 3 => rng.range(100, 450) as u32, 4 => 20, 5 => 100, 6 => 20_000, 7 => 17_281, _ if rng.chance(1, 5) => 600_000, _ if rng.chance(1, 6) => 4_000_000, _ => rng.range(1, 5) as u32 };
         let n = n.min(*left); *left -= n; Op::Advance(n)
     };
-    if k == Kind::PausLib {
+    if matches!(k, Kind::PausLib | Kind::PausEx) {
         return match rng.below(100) {
-            0..=24 => Op::Pause(any(rng)),
-            25..=49 => Op::Unpause(any(rng)),
+            0..=24 => Op::Pause(boss(rng)),
+            25..=49 => Op::Unpause(boss(rng)),
             50..=69 => Op::WhenNotPaused,
             70..=89 => Op::WhenPaused,
             90..=93 => adv(rng, budget_left),
@@ -699,7 +756,9 @@ fn random_op(rng: &mut Rng, s: &Sys, budget_left: &mut u32) -> Op {
         return Op::Mint(any(rng), amount(rng, anchor, p.supply));
     }
     match w % 5 {
-        0 => { let f = holder(rng); Op::Transfer(f, if rng.chance(1, 8) { f } else { any(rng) }, amount(rng, p.bal[f], p.supply)) }
+        0 => { let f = holder(rng); let t = if rng.chance(1, 8) { f } else { any(rng) }; let am = amount(rng, p.bal[f], p.supply);
+               let t = if s.p.acct.is_some() && rng.chance(1, 4) { s.p.acct.unwrap() } else { t };
+               if Some(t) == s.p.acct && rng.chance(2, 3) { Op::TransferMux(f, t, rng.next_u64() >> rng.below(64), am) } else { Op::Transfer(f, t, am) } }
         1 => {
             let (o, sp) = allowance_pair(rng);
             let anchor = if rng.chance(1, 2) { p.alw[o][sp] } else { p.bal[o].min(p.alw[o][sp]) };
@@ -713,7 +772,7 @@ fn random_op(rng: &mut Rng, s: &Sys, budget_left: &mut u32) -> Op {
 
 fn random_trace(out: &mut Out, rng: &mut Rng, kind: Kind, na: usize, len: usize) {
     let mut s = Sys::deploy(params(kind, rng, na));
-    let mut left = 45_000u32;   // stays below min_persistent_entry_ttl (instance storage is never extended by these contracts)
+    let mut left = 40_000_000u32;
     // list kinds: start from a populated state most of the time (funds on several parties)
     if kind.is_list() && rng.chance(3, 4) {
         let (own, man) = (s.p.owner, s.p.manager);
@@ -743,7 +802,7 @@ fn random_trace(out: &mut Out, rng: &mut Rng, kind: Kind, na: usize, len: usize)
 fn directed_pausable(out: &mut Out, rng: &mut Rng) {
     for variant in 0..3 {
         let own = variant % 3;
-        let mut s = Sys::deploy(Params { kind: Kind::Paus, na: 4, owner: own, manager: 3, max_ttl: 100_000, init_supply: 1000, cap: 0, now0: 10, min_temp: 1 });
+        let mut s = Sys::deploy(Params { kind: Kind::Paus, na: 5, owner: own, manager: 3, max_ttl: 100_000, init_supply: 1000, cap: 0, now0: 10, min_temp: 1, acct: Some(4) });
         let (u1, u2) = ((own + 1) % 4, (own + 2) % 4);
         s.step(out, Op::Transfer(own, u1, 300), &[own]);
         s.step(out, Op::Approve(u1, u2, 100, 5000), &[u1]);
@@ -757,6 +816,12 @@ fn directed_pausable(out: &mut Out, rng: &mut Rng) {
         // every pausable entry point, otherwise valid
         s.step(out, Op::Transfer(u1, u2, 10), &[u1]);
         s.step(out, Op::Transfer(u1, u2, 0), &[u1]);
+        s.step(out, Op::TransferMux(u1, 4, 5, 10), &[u1]);
+        s.step(out, Op::TransferMux(u1, 4, 5, 0), &[u1]);
+        s.step(out, Op::TransferFrom(u2, u1, own, 0), &[u2]);
+        s.step(out, Op::Burn(u1, 0), &[u1]);
+        s.step(out, Op::BurnFrom(u2, own, 0), &[u2]);
+        s.step(out, Op::Mint(u2, 0), &[own]);
         s.step(out, Op::TransferFrom(u2, u1, own, 10), &[u2]);
         s.step(out, Op::Burn(u1, 10), &[u1]);
         s.step(out, Op::BurnFrom(u2, own, 10), &[u2]);
@@ -767,6 +832,7 @@ fn directed_pausable(out: &mut Out, rng: &mut Rng) {
         s.step(out, Op::Unpause(own), &[]);
         s.step(out, Op::Unpause(own), &[own]);
         s.step(out, Op::Unpause(own), &[own]);               // already unpaused
+        s.step(out, Op::TransferMux(u1, 4, 6, 10), &[u1]);
         s.step(out, Op::Transfer(u1, u2, 10), &[u1]);
         s.step(out, Op::TransferFrom(u2, u1, own, 10), &[u2]);
         s.step(out, Op::Burn(u1, 10), &[u1]);
@@ -788,12 +854,12 @@ fn directed_pausable(out: &mut Out, rng: &mut Rng) {
 
 /// allow/block list: entry point x party role x list status (x aliasing), then the gates re-opened
 fn directed_lists(out: &mut Out, thorough: bool) {
-    let patterns: &[(usize, usize, usize)] = if thorough { &[(1, 2, 3), (1, 1, 3), (1, 2, 1), (1, 2, 2), (1, 1, 1), (0, 2, 3), (2, 0, 1)] } else { &[(1, 2, 3), (1, 1, 3), (1, 2, 1), (1, 2, 2)] };
+    let patterns: &[(usize, usize, usize)] = if thorough { &[(1, 2, 3), (1, 1, 3), (1, 2, 1), (1, 3, 3), (1, 1, 1), (0, 2, 3), (3, 0, 1)] } else { &[(1, 2, 3), (1, 1, 3), (1, 2, 1), (1, 3, 3), (1, 1, 1), (0, 2, 3)] };
     for kind in [Kind::AllowEx, Kind::AllowLib, Kind::BlockEx, Kind::BlockLib] {
         for &(f, t, sp) in patterns {
             for bits in 0..8u32 {
                 let (own, man) = (0usize, 3usize);
-                let mut s = Sys::deploy(Params { kind, na: 4, owner: own, manager: man, max_ttl: 100_000, init_supply: 1000, cap: 0, now0: 5, min_temp: 1 });
+                let mut s = Sys::deploy(Params { kind, na: 4, owner: own, manager: man, max_ttl: 100_000, init_supply: 1000, cap: 0, now0: 5, min_temp: 1, acct: Some(2) });
                 let open = |s: &mut Sys, out: &mut Out, u: usize| { if kind.is_allow() { s.step(out, Op::AllowUser(u, man), &[man]); } else { s.step(out, Op::UnblockUser(u, man), &[man]); } };
                 let close = |s: &mut Sys, out: &mut Out, u: usize| { if kind.is_allow() { s.step(out, Op::DisallowUser(u, man), &[man]); } else { s.step(out, Op::BlockUser(u, man), &[man]); } };
                 // set-up with every gate open
@@ -809,6 +875,15 @@ fn directed_lists(out: &mut Out, thorough: bool) {
                 for (i, u) in all3.iter().enumerate() { if bits >> i & 1 == 1 { close(&mut s, out, *u); } }
                 if subj.contains(&0) && bits & 1 == 1 { close(&mut s, out, 0); }
                 let ops = |s: &mut Sys, out: &mut Out| {
+                    // zero amounts must be vetted like any other, a muxed receiver like its address
+                    s.step(out, Op::Transfer(f, t, 0), &[f]);
+                    s.step(out, Op::TransferMux(f, t, 0, 0), &[f]);
+                    s.step(out, Op::TransferFrom(sp, f, t, 0), &[sp]);
+                    s.step(out, Op::Approve(f, sp, 0, 0), &[f]);
+                    s.step(out, Op::Approve(f, sp, 50, 9000), &[f]);
+                    s.step(out, Op::Burn(f, 0), &[f]);
+                    s.step(out, Op::BurnFrom(sp, f, 0), &[sp]);
+                    s.step(out, Op::TransferMux(f, t, u64::MAX, 2), &[f]);
                     s.step(out, Op::Transfer(f, t, 10), &[f]);
                     s.step(out, Op::TransferFrom(sp, f, t, 10), &[sp]);
                     s.step(out, Op::Approve(f, sp, 60, 9000), &[f]);
@@ -837,7 +912,7 @@ fn directed_lists(out: &mut Out, thorough: bool) {
 fn directed_cap(out: &mut Out) {
     for kind in [Kind::CapEx, Kind::CapLib] {
         for (cap, first) in [(100i128, 40i128), (0, 0), (i128::MAX, i128::MAX - 10), (i128::MAX - 1, i128::MAX - 10), (1, 0)] {
-            let mut s = Sys::deploy(Params { kind, na: 4, owner: 0, manager: 1, max_ttl: 100_000, init_supply: 0, cap, now0: 7, min_temp: 1 });
+            let mut s = Sys::deploy(Params { kind, na: 4, owner: 0, manager: 1, max_ttl: 100_000, init_supply: 0, cap, now0: 7, min_temp: 1, acct: None });
             if kind == Kind::CapLib {
                 s.step(out, Op::Mint(1, 1), &[]);          // cap not set
                 s.step(out, Op::SetCap(-1), &[]);
@@ -878,7 +953,7 @@ fn directed_cap(out: &mut Out) {
 fn directed_upgrade(out: &mut Out) {
     for own in 0..2usize {
         let other = 1 - own;
-        let mut s = Sys::deploy(Params { kind: Kind::UpgV2, na: 3, owner: own, manager: 2, max_ttl: 100_000, init_supply: 0, cap: 0, now0: 3, min_temp: 1 });
+        let mut s = Sys::deploy(Params { kind: Kind::UpgV2, na: 3, owner: own, manager: 2, max_ttl: 100_000, init_supply: 0, cap: 0, now0: 3, min_temp: 1, acct: None });
         s.step(out, Op::Migrate(1, own), &[own]);            // never without an upgrade
         s.step(out, Op::Upgrade(false, own), &[own]);        // unknown wasm: rolled back, flag stays clear
         s.step(out, Op::Migrate(2, own), &[own]);
@@ -901,16 +976,24 @@ fn directed_upgrade(out: &mut Out) {
         s.step(out, Op::Migrate(10, own), &[own]);
         s.step(out, Op::Migrate(11, own), &[own]);
         s.finish(out, "directed-upgrade-v2");
-        let mut s = Sys::deploy(Params { kind: Kind::UpgV1, na: 3, owner: own, manager: 2, max_ttl: 100_000, init_supply: 0, cap: 0, now0: 3, min_temp: 1 });
+        let mut s = Sys::deploy(Params { kind: Kind::UpgV1, na: 3, owner: own, manager: 2, max_ttl: 100_000, init_supply: 0, cap: 0, now0: 3, min_temp: 1, acct: None });
         s.step(out, Op::Upgrade(true, other), &[other]);
         s.step(out, Op::Upgrade(false, own), &[own]);
         s.step(out, Op::Upgrade(true, own), &[]);
-        s.step(out, Op::Upgrade(true, own), &[own]);
         s.step(out, Op::Migrate(1, own), &[own]);            // v1 has no migrate
-        s.step(out, Op::Upgrade(true, own), &[own]);
-        s.finish(out, "directed-upgrade-v1");
+        s.step(out, Op::Upgrade(true, own), &[own]);         // v1 -> v2: the flag is armed by derive(Upgradeable)
+        s.step(out, Op::Migrate(2, other), &[other]);
+        s.step(out, Op::Migrate(3, own), &[]);
+        s.step(out, Op::Advance(4_000_000), &[]);
+        s.step(out, Op::Migrate(4, own), &[own]);            // exactly one migration on the successor
+        s.step(out, Op::Migrate(5, own), &[own]);
+        s.step(out, Op::Upgrade(true, own), &[own]);         // v2 -> v2
+        s.step(out, Op::Upgrade(false, own), &[own]);
+        s.step(out, Op::Migrate(6, own), &[own]);
+        s.step(out, Op::Migrate(7, own), &[own]);
+        s.finish(out, "directed-upgrade-v1-to-v2");
     }
-    let mut s = Sys::deploy(Params { kind: Kind::UpgLib, na: 2, owner: 0, manager: 1, max_ttl: 100_000, init_supply: 0, cap: 0, now0: 3, min_temp: 1 });
+    let mut s = Sys::deploy(Params { kind: Kind::UpgLib, na: 2, owner: 0, manager: 1, max_ttl: 100_000, init_supply: 0, cap: 0, now0: 3, min_temp: 1, acct: None });
     for op in [Op::LibEnsure, Op::LibComplete, Op::LibEnsure, Op::LibEnable, Op::LibEnsure, Op::LibEnable, Op::LibComplete, Op::LibEnsure, Op::LibComplete, Op::LibEnable, Op::LibEnsure] {
         s.step(out, op, &[]);
     }
@@ -921,7 +1004,7 @@ fn directed_upgrade(out: &mut Out) {
 fn directed_manager(out: &mut Out) {
     for kind in [Kind::AllowEx, Kind::BlockEx] {
         for (own, man) in [(0usize, 3usize), (0, 0)] {
-            let mut s = Sys::deploy(Params { kind, na: 4, owner: own, manager: man, max_ttl: 100_000, init_supply: 1000, cap: 0, now0: 5, min_temp: 1 });
+            let mut s = Sys::deploy(Params { kind, na: 4, owner: own, manager: man, max_ttl: 100_000, init_supply: 1000, cap: 0, now0: 5, min_temp: 1, acct: None });
             let (u, other) = (1usize, 2usize);
             let add = |s: &mut Sys, out: &mut Out, x: usize, op_: usize, au: &[usize]| { if kind.is_allow() { s.step(out, Op::AllowUser(x, op_), au) } else { s.step(out, Op::BlockUser(x, op_), au) } };
             let del = |s: &mut Sys, out: &mut Out, x: usize, op_: usize, au: &[usize]| { if kind.is_allow() { s.step(out, Op::DisallowUser(x, op_), au) } else { s.step(out, Op::UnblockUser(x, op_), au) } };
@@ -937,7 +1020,7 @@ fn directed_manager(out: &mut Out) {
             s.step(out, Op::RevokeManager(man, own), &[own]);
             add(&mut s, out, u, man, &[man]);                          // revoked manager is refused at once
             del(&mut s, out, u, man, &[man]);
-            s.step(out, Op::Advance(20_000), &[]);
+            s.step(out, Op::Advance(4_000_000), &[]);
             add(&mut s, out, u, man, &[man]);                          // ... and stays refused
             add(&mut s, out, u, other, &[other]);                      // the granted one stays accepted
             s.step(out, Op::RenounceManager(man), &[man]);             // not held any more
@@ -952,24 +1035,32 @@ fn directed_manager(out: &mut Out) {
     }
 }
 
+/// constructor arguments the constructors must refuse (the model's [ctor_ok])
+fn directed_refused_deployments(out: &mut Out) {
+    for (kind, init_supply, cap) in [(Kind::CapEx, 0i128, -1i128), (Kind::CapEx, 0, i128::MIN), (Kind::Paus, -1, 0), (Kind::AllowEx, -5, 0), (Kind::BlockEx, i128::MIN, 0)] {
+        let s = Sys::deploy(Params { kind, na: 3, owner: 0, manager: 1, max_ttl: 100_000, init_supply, cap, now0: 5, min_temp: 1, acct: None });
+        s.finish(out, "directed-refused-deployment");
+    }
+}
+
 /// gate changes persist until explicitly reverted: the ledger advances far (beyond the minimum
 /// temporary lifetime 16, beyond a day = 17280 ledgers) between the gate operation and the next
 /// gated call, and for list entries NOBODY reads the account's status in between.
 fn directed_persistence(out: &mut Out) {
-    let gaps: [u32; 5] = [1, 20, 100, 17_281, 20_000];
+    let gaps: [u32; 7] = [1, 20, 100, 17_281, 20_000, 600_000, 4_000_000];   // the last two exceed ALLOW_BLOCK_EXTEND_AMOUNT (518400) resp. every max_entry_ttl used
     for &gap in &gaps {
-        for &(min_temp, max_ttl) in &[(1u32, 100_000u32), (16, 100_000), (16, 3_000_000)] {
+        for &(min_temp, max_ttl) in &[(1u32, 100_000u32), (16, 600_000), (16, 3_000_000)] {
             // allow / block lists
             for kind in [Kind::AllowEx, Kind::AllowLib, Kind::BlockEx, Kind::BlockLib] {
                 let (own, man, u, t, sp) = (0usize, 3usize, 1usize, 2usize, 3usize);
-                let mut s = Sys::deploy(Params { kind, na: 4, owner: own, manager: man, max_ttl, init_supply: 1000, cap: 0, now0: 5, min_temp });
+                let mut s = Sys::deploy(Params { kind, na: 4, owner: own, manager: man, max_ttl, init_supply: 1000, cap: 0, now0: 5, min_temp, acct: Some(2) });
                 let open = |s: &mut Sys, out: &mut Out, x: usize| { if kind.is_allow() { s.step(out, Op::AllowUser(x, man), &[man]); } else { s.step(out, Op::UnblockUser(x, man), &[man]); } };
                 let close = |s: &mut Sys, out: &mut Out, x: usize| { if kind.is_allow() { s.step(out, Op::DisallowUser(x, man), &[man]); } else { s.step(out, Op::BlockUser(x, man), &[man]); } };
                 // nobody ever reads u's or t's status from here on, except the gated calls themselves
                 s.unread[u] = true; s.unread[t] = true;
                 for x in 0..4 { if kind.is_allow() { open(&mut s, out, x); } }
                 for x in 1..4 { if kind.is_lib() { s.step(out, Op::Mint(x, 100), &[]); } else { s.step(out, Op::Transfer(own, x, 100), &[own]); } }
-                s.step(out, Op::Approve(u, sp, 50, 5 + 44_000), &[u]);
+                s.step(out, Op::Approve(u, sp, 50, 5 + max_ttl - 2), &[u]);
                 // open status must survive the gap (allow list: the allow; block list: nothing to survive)
                 s.step(out, Op::Advance(gap), &[]);
                 s.step(out, Op::Transfer(u, t, 3), &[u]);
@@ -977,11 +1068,12 @@ fn directed_persistence(out: &mut Out) {
                 close(&mut s, out, u);
                 s.step(out, Op::Advance(gap), &[]);
                 s.step(out, Op::Transfer(u, t, 3), &[u]);
+                s.step(out, Op::TransferMux(own, u, 1, 3), &[own]);
                 s.step(out, Op::TransferFrom(sp, u, t, 3), &[sp]);
                 s.step(out, Op::Burn(u, 3), &[u]);
                 s.step(out, Op::BurnFrom(sp, u, 3), &[sp]);
-                s.step(out, Op::Approve(u, sp, 40, 5 + 44_000), &[u]);
-                s.step(out, Op::Transfer(t, u, 3), &[t]);
+                s.step(out, Op::Approve(u, sp, 40, 0), &[u]);
+                s.step(out, Op::Transfer(own, u, 3), &[own]);
                 // re-opened, and that survives too
                 open(&mut s, out, u);
                 s.step(out, Op::Advance(if gap > 1000 { 100 } else { gap }), &[]);
@@ -993,7 +1085,7 @@ fn directed_persistence(out: &mut Out) {
                 s.finish(out, &format!("directed-persistence gap{} mintemp{} maxttl{}", gap, min_temp, max_ttl));
             }
             // pause flag (example and library level)
-            let mut s = Sys::deploy(Params { kind: Kind::Paus, na: 3, owner: 0, manager: 2, max_ttl, init_supply: 500, cap: 0, now0: 5, min_temp });
+            let mut s = Sys::deploy(Params { kind: Kind::Paus, na: 3, owner: 0, manager: 2, max_ttl, init_supply: 500, cap: 0, now0: 5, min_temp, acct: None });
             s.step(out, Op::Transfer(0, 1, 100), &[0]);
             s.step(out, Op::Pause(0), &[0]);
             s.step(out, Op::Advance(gap), &[]);
@@ -1006,20 +1098,24 @@ fn directed_persistence(out: &mut Out) {
             s.step(out, Op::Transfer(1, 2, 3), &[1]);
             s.step(out, Op::Unpause(0), &[0]);
             s.finish(out, &format!("directed-persistence gap{} mintemp{} maxttl{}", gap, min_temp, max_ttl));
-            let mut s = Sys::deploy(Params { kind: Kind::PausLib, na: 2, owner: 0, manager: 1, max_ttl, init_supply: 0, cap: 0, now0: 5, min_temp });
-            s.step(out, Op::Pause(0), &[]);
+            for kind in [Kind::PausLib, Kind::PausEx] {
+            let au: &[usize] = if kind == Kind::PausEx { &[0] } else { &[] };
+            let mut s = Sys::deploy(Params { kind, na: 2, owner: 0, manager: 1, max_ttl, init_supply: 0, cap: 0, now0: 5, min_temp, acct: None });
+            s.step(out, Op::WhenNotPaused, &[]);
+            s.step(out, Op::Pause(0), au);
             s.step(out, Op::Advance(gap), &[]);
             s.step(out, Op::WhenNotPaused, &[]);
             s.step(out, Op::WhenPaused, &[]);
-            s.step(out, Op::Pause(0), &[]);
-            s.step(out, Op::Unpause(0), &[]);
+            s.step(out, Op::Pause(0), au);
+            s.step(out, Op::Unpause(0), au);
             s.step(out, Op::Advance(gap), &[]);
             s.step(out, Op::WhenNotPaused, &[]);
             s.step(out, Op::WhenPaused, &[]);
             s.finish(out, &format!("directed-persistence gap{} mintemp{} maxttl{}", gap, min_temp, max_ttl));
+            }
             // cap
             for kind in [Kind::CapEx, Kind::CapLib] {
-                let mut s = Sys::deploy(Params { kind, na: 3, owner: 0, manager: 1, max_ttl, init_supply: 0, cap: 100, now0: 5, min_temp });
+                let mut s = Sys::deploy(Params { kind, na: 3, owner: 0, manager: 1, max_ttl, init_supply: 0, cap: 100, now0: 5, min_temp, acct: None });
                 if kind == Kind::CapLib { s.step(out, Op::SetCap(100), &[]); }
                 s.step(out, Op::Mint(1, 60), &[]);
                 s.step(out, Op::Advance(gap), &[]);
@@ -1030,14 +1126,14 @@ fn directed_persistence(out: &mut Out) {
                 s.finish(out, &format!("directed-persistence gap{} mintemp{} maxttl{}", gap, min_temp, max_ttl));
             }
             // migration flag
-            let mut s = Sys::deploy(Params { kind: Kind::UpgV2, na: 2, owner: 0, manager: 1, max_ttl, init_supply: 0, cap: 0, now0: 5, min_temp });
+            let mut s = Sys::deploy(Params { kind: Kind::UpgV2, na: 2, owner: 0, manager: 1, max_ttl, init_supply: 0, cap: 0, now0: 5, min_temp, acct: None });
             s.step(out, Op::Upgrade(true, 0), &[0]);
             s.step(out, Op::Advance(gap), &[]);
             s.step(out, Op::Migrate(1, 0), &[0]);
             s.step(out, Op::Advance(gap), &[]);
             s.step(out, Op::Migrate(2, 0), &[0]);
             s.finish(out, &format!("directed-persistence gap{} mintemp{} maxttl{}", gap, min_temp, max_ttl));
-            let mut s = Sys::deploy(Params { kind: Kind::UpgLib, na: 2, owner: 0, manager: 1, max_ttl, init_supply: 0, cap: 0, now0: 5, min_temp });
+            let mut s = Sys::deploy(Params { kind: Kind::UpgLib, na: 2, owner: 0, manager: 1, max_ttl, init_supply: 0, cap: 0, now0: 5, min_temp, acct: None });
             s.step(out, Op::LibEnable, &[]);
             s.step(out, Op::Advance(gap), &[]);
             s.step(out, Op::LibEnsure, &[]);
@@ -1054,7 +1150,7 @@ fn exhaustive(out: &mut Out, thorough: bool) {
     // upgrade / migrate: {upgrade ok, upgrade unknown wasm, migrate authorised, migrate unauthorised}^n
     let n = if thorough { 6 } else { 4 };
     for code in 0..4u32.pow(n) {
-        let mut s = Sys::deploy(Params { kind: Kind::UpgV2, na: 2, owner: 0, manager: 1, max_ttl: 100_000, init_supply: 0, cap: 0, now0: 3, min_temp: 1 });
+        let mut s = Sys::deploy(Params { kind: Kind::UpgV2, na: 2, owner: 0, manager: 1, max_ttl: 100_000, init_supply: 0, cap: 0, now0: 3, min_temp: 1, acct: None });
         let mut c = code;
         for i in 0..n {
             match c % 4 {
@@ -1069,13 +1165,15 @@ fn exhaustive(out: &mut Out, thorough: bool) {
     }
     // library level: every word over {pause, unpause, entry under #[when_not_paused], entry under #[when_paused]}
     let n = if thorough { 6 } else { 4 };
-    for code in 0..4u32.pow(n) {
-        let mut s = Sys::deploy(Params { kind: Kind::PausLib, na: 2, owner: 0, manager: 1, max_ttl: 100_000, init_supply: 0, cap: 0, now0: 3, min_temp: 1 });
-        let mut c = code;
+    for code in 0..2 * 4u32.pow(n) {
+        let kind = if code % 2 == 0 { Kind::PausLib } else { Kind::PausEx };
+        let au: &[usize] = if kind == Kind::PausEx { &[0] } else { &[] };
+        let mut s = Sys::deploy(Params { kind, na: 2, owner: 0, manager: 1, max_ttl: 100_000, init_supply: 0, cap: 0, now0: 3, min_temp: 1, acct: None });
+        let mut c = code / 2;
         for _ in 0..n {
             match c % 4 {
-                0 => { s.step(out, Op::Pause(0), &[]); }
-                1 => { s.step(out, Op::Unpause(0), &[]); }
+                0 => { s.step(out, Op::Pause(0), au); }
+                1 => { s.step(out, Op::Unpause(0), au); }
                 2 => { s.step(out, Op::WhenNotPaused, &[]); }
                 _ => { s.step(out, Op::WhenPaused, &[]); }
             }
@@ -1086,7 +1184,7 @@ fn exhaustive(out: &mut Out, thorough: bool) {
     // pausable: every word over {pause, unpause, transfer, transfer_from, burn, burn_from, mint, approve}
     let n = if thorough { 4 } else { 2 };
     for code in 0..8u32.pow(n) {
-        let mut s = Sys::deploy(Params { kind: Kind::Paus, na: 3, owner: 0, manager: 2, max_ttl: 100_000, init_supply: 500, cap: 0, now0: 3, min_temp: 1 });
+        let mut s = Sys::deploy(Params { kind: Kind::Paus, na: 3, owner: 0, manager: 2, max_ttl: 100_000, init_supply: 500, cap: 0, now0: 3, min_temp: 1, acct: None });
         s.step(out, Op::Transfer(0, 1, 200), &[0]);
         s.step(out, Op::Approve(1, 2, 150, 900), &[1]);
         let mut c = code;
@@ -1108,7 +1206,7 @@ fn exhaustive(out: &mut Out, thorough: bool) {
 }
 
 fn main() {
-    std::panic::set_hook(Box::new(|_| {}));   // constructor failures are caught and reported as traces
+    if std::env::var("VERIF_DEBUG").is_err() { std::panic::set_hook(Box::new(|_| {})); }   // constructor failures are caught and reported as traces
     let mut out = Out::new("From SC Require Import Lib.Prelude Lib.Int Lib.Host Model.Gates Run.C16.\nOpen Scope Z_scope.", "check_all");
     out.per_shard(600);
     let thorough = out.cfg.thorough;
@@ -1122,6 +1220,7 @@ fn main() {
     directed_upgrade(&mut out);
     directed_persistence(&mut out);
     directed_manager(&mut out);
+    directed_refused_deployments(&mut out);
     exhaustive(&mut out, thorough);
 
     // random interleavings
@@ -1134,7 +1233,7 @@ fn main() {
             random_trace(&mut out, &mut r, kind, if i % 5 == 4 { 3 } else { na }, len);
         }
     }
-    for kind in [Kind::UpgV1, Kind::UpgV2, Kind::UpgLib, Kind::PausLib] {
+    for kind in [Kind::UpgV1, Kind::UpgV2, Kind::UpgLib, Kind::PausLib, Kind::PausEx] {
         let n = if kind == Kind::UpgV2 { 10 } else { 4 };
         for i in 0..n * mult {
             let mut r = rng.fork(1000 + i as u64);
